@@ -87,6 +87,10 @@ def _setup(sx, cfg, complex_values=False):
         mapping = dict(zip(names, list(dims[1:]) + [dims[0]]))
     elif cfg.get("mapping") == "none":
         mapping = {}
+    elif cfg.get("mapping") == "offmesh" and nv > nd:
+        # more components than axes (e.g. a plane cut out of a 3-d vector field): the extra ones map to axes that are not in the mesh
+        names = labels or ["x", "y", "z"][:nv]
+        mapping = dict(zip(names, list(dims) + ["out", "k_far"][: nv - nd]))
     re = sx.real_array("v", (*n, nv))
     if complex_values:
         im = sx.real_array("w", (*n, nv))
@@ -99,7 +103,7 @@ def _setup(sx, cfg, complex_values=False):
     else:
         im = None
         val = re
-    f = df.Field(mesh, nvdim=nv, value=val, vdims=labels, vdim_mapping=mapping, unit="A/m", dtype=None if sx.sym or not complex_values else complex)
+    f = df.Field(mesh, nvdim=nv, value=val, vdims=labels, vdim_mapping=mapping, unit="A/m", dtype=(float if cfg.get("dtype") == "float" and not complex_values else None) if sx.sym or not complex_values else complex)
     return df, f, mesh, pmin, e, n, nd, nv, dims, re, im, labels
 
 
@@ -283,7 +287,7 @@ def h_mesh_only(sx, cfg):
     df = lib.load()
     n = tuple(cfg["n"])
     nd = len(n)
-    dims = DIMSETS["default"][nd]
+    dims = DIMSETS[cfg.get("dims", "default")][nd]
     mesh, pmin, e = sym_mesh(sx, n, dims=dims, flip=False)
     for rfft in (False, True):
         km = mesh.fftn(rfft=rfft)
@@ -343,4 +347,16 @@ def tasks(tier):
         t.append(dict(harness="h_mesh_only", cfg=dict(n=list(n)), limits=big))
     for n in ((4,), (3, 2), (1, 3)):
         t.append(dict(harness="h_mesh_only", cfg=dict(n=list(n)), limits=big))
+    # axis names that already look reciprocal, components mapped to axes outside the mesh, explicitly real-typed fields
+    extra = [dict(n=[3], nvdim=2, labels="custom", mapping="offmesh", dims="kprefixed", dtype="float"),
+             dict(n=[2, 3], nvdim=3, labels="default", mapping="offmesh", dims="default", dtype="float"),
+             dict(n=[4, 1], nvdim=2, labels="tricky", mapping="permuted", dims="kprefixed", units=True)]
+    if not q:
+        extra += [dict(n=[2, 2, 3], nvdim=3, labels="custom", mapping="default", dims="kprefixed", dtype="float"), dict(n=[6], nvdim=3, labels="tricky", mapping="offmesh", dims="renamed")]
+    for base in extra:
+        t.append(dict(harness="h_forward", cfg=dict(base, kind="fftn"), limits=big))
+        t.append(dict(harness="h_forward", cfg=dict(base, kind="rfftn"), limits=big))
+        t.append(dict(harness="h_inverse", cfg=dict(base, kind="ifftn"), limits=big))
+        t.append(dict(harness="h_inverse", cfg=dict(base, kind="irfftn-shape"), limits=big))
+        t.append(dict(harness="h_mesh_only", cfg=dict(n=base["n"], dims=base["dims"]), limits=big))
     return t
